@@ -166,3 +166,50 @@ HARNESSES = [
     _h("c04_with_collateral", _mk(2, "with_collateral"), "2 blocks + a collateral block over the same party; " + S % 2, max_paths=400000, time_limit=1200),
     _h("c04_three_blocks", _mk(3, "three"), "3 blocks from the same party, middle one many with a token threshold; " + S % 3, max_paths=2000000, time_limit=3000, tier="thorough"),
 ]
+
+
+# ---- the emitted input list, whatever else names the same UTxOs --------------------------------
+
+def h_inputs_emitted(ctx, tier, seed):
+    """a resolved template whose blocks hold {u1} and {u2, u3}; a reference input and / or a
+    collateral input may name one of the selected UTxOs: the body's input list is {u1, u2, u3},
+    each exactly once"""
+    eng = ctx.eng; T = TIR(eng)
+    ref_overlap = eng.choose(4, "reference input names: nothing selected / u1 / u2 / an unrelated UTxO")
+    coll_overlap = eng.choose(2, "collateral names a selected UTxO") == 1
+
+    def utxo_(tag, ix):
+        return T.st("Utxo", ref=utxo_ref(T, [tag] * 32, ix), address=VecM([0x60] + [1] * 28),
+                    assets=Agg("CanonicalAssets", None, 0, [MapM("HashMap", [[cls_naked(), True, 5000000]])]), datum=none(), script=none())
+    sel = [(0x11, 0), (0x22, 1), (0x22, 0)]
+    s1 = MapM("HashSet", [[utxo_(*sel[0]), True, unit()]])
+    s2 = MapM("HashSet", [[utxo_(*sel[1]), True, unit()], [utxo_(*sel[2]), True, unit()]])
+    inputs = [T.st("Input", name=StrM("a", True), utxos=T.v("Expression", "UtxoSet", s1), redeemer=T.none()),
+              T.st("Input", name=StrM("b", True), utxos=T.v("Expression", "UtxoSet", s2), redeemer=T.none())]
+    refs = {0: [], 1: [sel[0]], 2: [sel[1]], 3: [(0x77, 5)]}[ref_overlap]
+    tx = mk_tx(T, inputs=inputs, references=[T.v("Expression", "UtxoRefs", VecM([utxo_ref(T, [t] * 32, i) for t, i in refs]))] if refs else [],
+               collateral=[T.st("Collateral", utxos=T.v("Expression", "UtxoRefs", VecM([utxo_ref(T, [sel[2][0]] * 32, sel[2][1])])))] if coll_overlap else [])
+    try:
+        b = models.deref(eng.call_fn(eng.find(short="compile_tx_body"), [ref_to_value(tx), eng.mk_variant("NetworkId", "Testnet", [])]))
+    except Panic as p:
+        eng.stats.panic_paths += 1
+        ctx.violation("compile_tx_body panicked: %s" % p.kind, site=p.site)
+        return
+    if b.variant != "Ok":
+        # refusing a template whose reference input is also spent is acceptable; dropping is not
+        ctx.require(ref_overlap in (1, 2) or coll_overlap, "a template with disjoint inputs and references compiles", shape="resolved template rejected")
+        return
+    bn = eng.tdef("TransactionBody", "struct")[1][2]
+    ins = models.deref(models.deref(b.fields[0]).fields[bn.index("inputs")])
+    while isinstance(ins, Agg):
+        ins = models.deref(ins.fields[0])
+    tn = eng.tdef("TransactionInput", "struct")[1][2]
+    keys = []
+    for it in ins.items:
+        it = models.deref(it)
+        h = models.deref(it.fields[tn.index("transaction_id")])
+        keys.append((models.deref(h.fields[0]).items[0], it.fields[tn.index("index")]))
+    ctx.require(sorted(keys) == sorted(sel), "|tx.inputs| = sum of |selection_i|: the body spends exactly the selected UTxOs, each once (got %s)" % (keys,), shape="input list loses or duplicates a selected UTxO")
+
+
+HARNESSES.append(_h("c04_inputs_emitted", h_inputs_emitted, "blocks {u1}, {u2,u3}; reference input naming nothing / u1 / u2 / another UTxO; collateral naming u3 or absent"))
